@@ -62,7 +62,7 @@ class ERoute(Engine):
                    'C17 / C15)', 'little-endian host only', 'repr() of a file-backed object names its file by design and '
                    'is compared only for other routes']
     expected_probes = ('file_route_with_slack_bytes', 'file_route_length_shorter_than_file', 'op_on_file_backed_lazy',
-                       'mutator_on_file_derived', 'env_unlink_then_op', 'lsb0_pair', 'cache_hit_route', 'op_after_toggle', 'big_file_pair')
+                       'mutator_on_file_derived', 'env_unlink_then_op', 'lsb0_pair', 'cache_hit_route', 'op_after_toggle', 'big_file_pair', 'op_against_fresh_twin')
 
     def plan(self, tier, base_seed):
         descs = self.seeded_plan(tier, base_seed, quick=(24000, 28), thorough=(1500000, 50))
@@ -314,6 +314,9 @@ class ERoute(Engine):
             ev['name'] = g.pick(['uint', 'int', 'hex', 'bin', 'bytes', 'float', 'u8', 'bits'])
         if op == 'byteswap':
             ev['fmt'] = g.pick([None, 0, 1, 2, [1, 2], 'h', '<2b'])
+        if op in READ_OPS and g.chance(0.15):
+            # compare with a brand-new twin of the current bits instead of the twin that shared the pair's history
+            ev['fresh'] = True
         return ev
 
     def _gen_big(self, g):
@@ -593,8 +596,17 @@ class ERoute(Engine):
         if self.cfg.get('big') and ev.get('seek') is not None and self.cls in STREAM:
             for o_ in (self.X, self.T):
                 kernel.set_pos(o_, min(max(int(ev['seek']), 0), len(o_)))
-        stx, vx = call(self._do, self.X, ev, self.T)
-        stt, vt = call(self._do, self.T, ev, self.X)
+        T = self.T
+        if ev.get('fresh') and op in READ_OPS and not self.cfg.get('big'):
+            st_f, T = call(self._twin, self.X)
+            if st_f != 'ok':
+                T = self.T
+            else:
+                self.probe('op_against_fresh_twin')
+        stx, vx = call(self._do, self.X, ev, T)
+        stt, vt = call(self._do, T, ev, self.X)
+        if T is not self.T and kernel.is_stream(T):
+            kernel.set_pos(self.T, min(max(kernel.get_pos(T), 0), len(self.T)))     # the standing twin follows where the new one went
         ox = canon(vx) if stx == 'ok' else {'exc': kernel.exc_name(vx)}
         ot = canon(vt) if stt == 'ok' else {'exc': kernel.exc_name(vt)}
         incs = []
